@@ -137,6 +137,10 @@ func ghost_last_notifyDeletion_key[K comparable]() K                       { pan
 func ghost_last_notifyDeletion_value[V any]() V                            { panic("ghost") }
 func ghost_last_notifyDeletion_cause() DeletionCause                       { panic("ghost") }
 func ghost_last_runTask_t[K comparable, V any]() *task[K, V]               { panic("ghost") }
+func ghost_calls_expireNodes() int                                         { panic("ghost") }
+func ghost_calls_evictNodes() int                                          { panic("ghost") }
+func ghost_calls_DeleteExpired() int                                       { panic("ghost") }
+func ghost_last_DeleteExpired_nowNanos() int64                             { panic("ghost") }
 func ghost_last_maintenance_t[K comparable, V any]() *task[K, V]           { panic("ghost") }
 func ghost_calls_afterWriteTask() int                                      { panic("ghost") }
 func ghost_last_afterWriteTask_t[K comparable, V any]() *task[K, V]        { panic("ghost") }
@@ -202,7 +206,7 @@ func ghost_ret_f() time.Duration                      { panic("ghost") }
 func cfg[K comparable, V any](c *cache[K, V]) bool {
 	return ghost_hasExp() == c.withExpiration && ghost_hasRefresh() == c.withRefresh && ghost_hasWeight() == c.isWeighted &&
 		ghost_hasSize() == c.withEviction && ghost_hasState() == c.withMaintenance && ghost_hasExpLinks() == c.withExpiration &&
-		c.withMaintenance == (c.withEviction || c.withExpiration) && c.withTime == (c.withExpiration || c.withRefresh)
+		c.withMaintenance == (c.withEviction || c.withExpiration) && c.withTime == (c.withExpiration || c.withRefresh) && wired(c)
 }
 
 // wired: the maintenance structures the configuration asks for exist and are well-formed (established by newCache,
@@ -387,7 +391,9 @@ func estOf[K comparable](s *sketch[K], k K) uint64 {
 //@ macro ONDEL = ghost_calls_onDeletion(), ghost_calls_notifyDeletion()
 //@ macro WHOOKS = ghost_calls_ExpireAfterCreate(), ghost_ret_ExpireAfterCreate(), ghost_calls_ExpireAfterUpdate(), ghost_ret_ExpireAfterUpdate(), ghost_calls_weigher(), ghost_ret_weigher(), $RHOOKS
 // footprint of a maintenance run: the policies, the wheel, the table (evictions), and the removal notifications of the entries it evicts
-//@ macro MAINT = node::state, node::queueType, node::prev, node::next, node::prevExp, node::nextExp, ghost_tbl(*), ghost_calls(*), ghost_inWheel(*), ghost_inDeque(*), policy::*, Variable::*, Linked::*, sketch::*, []uint64::*, cache::drainStatus, cache::evictionMutex, ghost_calls_evictNode(), ghost_calls_rand(), ghost_ret_rand(), $EVLOG, $ONDEL, $ATOMICEV
+//@ macro MAINT0 = node::state, node::queueType, node::prev, node::next, node::prevExp, node::nextExp, ghost_tbl(*), ghost_calls(*), ghost_inWheel(*), ghost_inDeque(*), policy::*, Variable::*, Linked::*, sketch::*, []uint64::*, cache::drainStatus, cache::evictionMutex, ghost_calls_evictNode(), ghost_calls_rand(), ghost_ret_rand(), $EVLOG, $ONDEL, $ATOMICEV
+// ... plus the call log of the maintenance steps and the clock reading of the sweep
+//@ macro MAINT = $MAINT0, ghost_calls_maintenance(), ghost_calls_runTask(), ghost_calls_expireNodes(), ghost_calls_evictNodes(), ghost_calls_DeleteExpired(), ghost_calls_deleteExpiredFromBucket(), ghost_calls_expireNode(), ghost_now(), ghost_clockRead()
 
 //@ macro CACHEFX = $MAINT, $EVLOG, $ONDEL, $ATOMICEV, $WHOOKS, ghost_calls(*), node::expiresAt, node::refreshableAt, ghost_wgDone(*), call::wg, ghost_calls_afterWrite(), ghost_calls_afterDelete(), ghost_queued(), ghost_calls_performCleanUp(), ghost_calls_afterWriteTask(), ghost_calls_runTask(), ghost_calls_getTask(), ghost_now(), ghost_clockRead(), ghost_calls_ExpireAfterRead(), ghost_ret_ExpireAfterRead(), task::*
 
@@ -396,13 +402,57 @@ func estOf[K comparable](s *sketch[K], k K) uint64 {
 //@ immutable Cache.cache, cache.nodeManager, cache.hashmap, cache.evictionPolicy, cache.expirationPolicy, cache.stats, cache.clock, cache.singleflight, cache.withTime, cache.withExpiration, cache.withRefresh, cache.withEviction, cache.isWeighted, cache.withMaintenance, cache.withStats, cache.onDeletion, cache.onAtomicDeletion, cache.expiryCalculator, cache.refreshCalculator, cache.weigher, cache.executor, cache.readBuffer, cache.writeBuffer, cache.hasDefaultExecutor, policy.isWeighted, policy.sketch, policy.window, policy.probation, policy.protected, group.calls, G:hasExp, G:hasRefresh, G:hasWeight, G:hasSize, G:hasState, G:hasExpLinks, G:key, G:value, G:weight, call.key, call.isRefresh, call.isFake
 
 //@ func (*cache).scheduleDrainBuffers : C01 C03 C12 C20
-//@   assumed footprint of a maintenance run triggered through the executor (C14 is not applicable)
-//@   modifies $MAINT, $EVLOG
+//@   assumed footprint of a maintenance run triggered through the executor (C14 is not applicable); the run itself is (*cache).maintenance, verified below, which keeps the wiring
+//@   modifies $MAINT
+//@   ensures [wiring-kept] pre(wired(c)) ==> wired(c)
+//@   ensures [clock-stable] pre(ghost_clockRead()) ==> ghost_clockRead() && ghost_now() == pre(ghost_now())
 
-//@ func (*cache).maintenance : C01 C03 C19
-//@   assumed footprint only here; the body is verified under C04/C05/C13
+//@ func (*cache).drainReadBuffer : C05
+//@   assumed C17 is not applicable: applies the recorded reads to the policies (recency order, frequency, wheel position); it removes nothing and reports nothing
+//@   modifies node::queueType, node::prev, node::next, node::prevExp, node::nextExp, ghost_inWheel(*), ghost_inDeque(*), policy::*, Linked::*, sketch::*, []uint64::*
+//@   ensures [wiring-kept] pre(wired(c)) ==> wired(c)
+
+//@ func (*cache).drainWriteBuffer : C05 C06
+//@   assumed C16 is not applicable: applies the buffered write events through runTask (verified below); the events it recycles are owned by the buffer, so a task the caller still holds is not touched
+//@   modifies $MAINT0, ghost_calls_runTask()
+//@   ensures [wiring-kept] pre(wired(c)) ==> wired(c)
+//@   ensures [clock-stable] pre(ghost_clockRead()) ==> ghost_clockRead() && ghost_now() == pre(ghost_now())
+
+//@ func (*cache).climb : C04 C05
+//@   assumed hill climber (floating-point arithmetic, outside the verifier's reach): moves entries between the window and the main queues; it removes nothing and reports nothing
+//@   modifies node::queueType, node::prev, node::next, ghost_inDeque(*), policy::*, Linked::*
+//@   ensures [wiring-kept] pre(wired(c)) ==> wired(c)
+
+//@ func (*cache).expireNodes : C13 C07 C06
 //@   counted
-//@   modifies $MAINT, $EVLOG, $ONDEL
+//@   requires cfg(c)
+//@   modifies $MAINT0, ghost_now(), ghost_clockRead(), ghost_calls_DeleteExpired(), ghost_calls_deleteExpiredFromBucket(), ghost_calls_expireNode()
+//@   ensures [wiring-kept] wired(c)
+//@   ensures [C06:expirations-notified-one-to-one] $EVDELTA == pre($EVDELTA)
+//@   ensures [C13:sweep-at-the-clock-reading] c.withExpiration ==> ghost_calls_DeleteExpired() == pre(ghost_calls_DeleteExpired()) + 1 && ghost_last_DeleteExpired_nowNanos() == ghost_now()
+//@   ensures [C07:no-expiration-policy-no-sweep] !c.withExpiration ==> ghost_calls_DeleteExpired() == pre(ghost_calls_DeleteExpired()) && ghost_calls_notifyDeletion() == pre(ghost_calls_notifyDeletion())
+//@   ensures [clock-stable] pre(ghost_clockRead()) ==> ghost_clockRead() && ghost_now() == pre(ghost_now())
+
+//@ func (*cache).evictNodes : C04 C07 C06
+//@   counted
+//@   requires cfg(c)
+//@   modifies $MAINT0
+//@   ensures [wiring-kept] wired(c)
+//@   ensures [C06:evictions-notified-one-to-one] $EVDELTA == pre($EVDELTA)
+//@   ensures [C07:unbounded-cache-never-evicts-for-size] !c.withEviction ==> ghost_calls_notifyDeletion() == pre(ghost_calls_notifyDeletion()) && ghost_evictions() == pre(ghost_evictions()) && ghost_calls_onAtomicDeletion() == pre(ghost_calls_onAtomicDeletion())
+//@   ensures [clock-stable] pre(ghost_clockRead()) ==> ghost_clockRead() && ghost_now() == pre(ghost_now())
+
+//@ func (*cache).maintenance : C01 C03 C19 C05 C06 C13 C04
+//@   counted
+//@   requires cfg(c) && (t != nil ==> c.withMaintenance && taskWf(t))
+//@   modifies $MAINT0, t.n, t.old, t.writeReason, t.deletionCause, ghost_calls_runTask(), ghost_calls_expireNodes(), ghost_calls_evictNodes(), ghost_calls_DeleteExpired(), ghost_calls_deleteExpiredFromBucket(), ghost_calls_expireNode(), ghost_now(), ghost_clockRead()
+//@   ensures [wiring-kept] wired(c)
+//@   ensures [C05:handed-event-applied-after-the-buffered-ones] ghost_last_runTask_t[K, V]() == t
+//@   site evictNodes: requires [C13:expired-entries-swept-before-size-eviction] ghost_calls_expireNodes() == pre(ghost_calls_expireNodes()) + 1
+//@   site expireNodes: requires [C05:events-applied-before-sweeping] ghost_last_runTask_t[K, V]() == t
+//@   ensures [C04:size-eviction-runs-every-maintenance] ghost_calls_evictNodes() == pre(ghost_calls_evictNodes()) + 1
+//@   ensures [C13:sweep-runs-every-maintenance] ghost_calls_expireNodes() == pre(ghost_calls_expireNodes()) + 1
+//@   ensures [clock-stable] pre(ghost_clockRead()) ==> ghost_clockRead() && ghost_now() == pre(ghost_now())
 
 //@ func (*cache).afterRead : C01 C03 C12 C20
 //@   requires cfg(c) && nowNano >= 0 && got != nil
@@ -413,6 +463,8 @@ func estOf[K comparable](s *sketch[K], k K) uint64 {
 //@   ensures [C12:read-deadline] calcExpiresAt && c.withExpiration && ghost_ret_ExpireAfterRead() > 0 ==> ghost_expiresAt(got) == satadd(nowNano, int64(ghost_ret_ExpireAfterRead()))
 //@   ensures [C12:read-keep] !calcExpiresAt || !c.withExpiration || ghost_ret_ExpireAfterRead() <= 0 ==> ghost_expiresAt(got) == pre(ghost_expiresAt(got))
 //@   ensures [C12:no-hook-unless-asked] !calcExpiresAt || !c.withExpiration ==> ghost_calls_ExpireAfterRead() == pre(ghost_calls_ExpireAfterRead()) && ghost_ret_ExpireAfterRead() == pre(ghost_ret_ExpireAfterRead())
+//@   ensures [clock-stable] pre(ghost_clockRead()) ==> ghost_clockRead() && ghost_now() == pre(ghost_now())
+//@   ensures [wiring-kept] pre(wired(c)) ==> wired(c)
 
 //@ func (*cache).getNodeQuietly : C01 C03 C11 C12 C20
 //@   requires cfg(c)
@@ -538,6 +590,8 @@ func estOf[K comparable](s *sketch[K], k K) uint64 {
 //@   ensures [C03:no-resurrect] pre(ghost_tbl(c.hashmap, key)) != nil && c.withExpiration && pre(ghost_expiresAt(ghost_tbl(c.hashmap, key))) <= ghost_now() ==> ghost_expiresAt(pre(ghost_tbl(c.hashmap, key))) == pre(ghost_expiresAt(ghost_tbl(c.hashmap, key)))
 //@   ensures [C12:override-ignored] !c.withExpiration || expiresAfter <= 0 ==> pre(ghost_tbl(c.hashmap, key)) == nil || ghost_expiresAt(pre(ghost_tbl(c.hashmap, key))) == pre(ghost_expiresAt(ghost_tbl(c.hashmap, key)))
 //@   ensures [C20:quiet] ghost_hits() == pre(ghost_hits()) && ghost_misses() == pre(ghost_misses())
+//@   ensures [clock-stable] pre(ghost_clockRead()) ==> ghost_clockRead() && ghost_now() == pre(ghost_now())
+//@   ensures [wiring-kept] pre(wired(c)) ==> wired(c)
 
 //@ func (*cache).SetRefreshableAfter : C12 C03 C01 C20
 //@   requires cfg(c)
@@ -659,13 +713,18 @@ func estOf[K comparable](s *sketch[K], k K) uint64 {
 
 // policy notification entry points (bodies verified in the C05/C06 block)
 //@ func (*cache).scheduleAfterWrite : C05 C06
-//@   assumed drain-status protocol (C14 is not applicable); footprint of a possibly triggered maintenance run
-//@   modifies $MAINT, $EVLOG, $ONDEL
+//@   assumed drain-status protocol (C14 is not applicable); footprint of a possibly triggered maintenance run, which keeps the wiring (see (*cache).maintenance)
+//@   modifies $MAINT
+//@   ensures [wiring-kept] pre(wired(c)) ==> wired(c)
+//@   ensures [clock-stable] pre(ghost_clockRead()) ==> ghost_clockRead() && ghost_now() == pre(ghost_now())
 
-//@ func (*cache).performCleanUp : C05 C06 C04
-//@   assumed footprint of a maintenance run under the eviction lock; the task it is given is applied by that run
+//@ func (*cache).performCleanUp : C05 C06 C04 C13
 //@   counted
-//@   modifies $MAINT, $EVLOG, $ONDEL
+//@   requires cfg(c) && (t != nil ==> c.withMaintenance && taskWf(t))
+//@   modifies $MAINT, t.n, t.old, t.writeReason, t.deletionCause
+//@   ensures [wiring-kept] wired(c)
+//@   site rescheduleCleanUpIfIncomplete: requires [C05:handed-event-reaches-maintenance] ghost_calls_maintenance() == pre(ghost_calls_maintenance()) + 1 && ghost_last_maintenance_t[K, V]() == t
+//@   ensures [clock-stable] pre(ghost_clockRead()) ==> ghost_clockRead() && ghost_now() == pre(ghost_now())
 
 //@ func (*cache).getTask : C05 C06
 //@   counted
@@ -674,24 +733,29 @@ func estOf[K comparable](s *sketch[K], k K) uint64 {
 
 //@ func (*cache).afterWriteTask : C05 C06 C04
 //@   counted
-//@   requires t != nil
-//@   modifies $MAINT, $EVLOG, $ONDEL, ghost_queued(), ghost_calls_performCleanUp()
+//@   requires cfg(c) && c.withMaintenance && t != nil && taskWf(t)
+//@   modifies $MAINT, $EVLOG, $ONDEL, ghost_queued(), ghost_calls_performCleanUp(), t.n, t.old, t.writeReason, t.deletionCause
+//@   loop 1: invariant [wiring] wired(c) && taskWf(t)
 //@   loop 1: invariant [not-yet-accepted] ghost_queued() == pre(ghost_queued()) && ghost_calls_performCleanUp() == pre(ghost_calls_performCleanUp()) && i >= 0
 //@   ensures [C05:write-event-never-dropped] (ghost_queued() == pre(ghost_queued())+1 && ghost_calls_performCleanUp() == pre(ghost_calls_performCleanUp())) || (ghost_queued() == pre(ghost_queued()) && ghost_calls_performCleanUp() == pre(ghost_calls_performCleanUp())+1 && ghost_last_performCleanUp_t[K, V]() == t)
+//@   ensures [clock-stable] pre(ghost_clockRead()) ==> ghost_clockRead() && ghost_now() == pre(ghost_now())
+//@   ensures [wiring-kept] pre(wired(c)) ==> wired(c)
 
 //@ func (*cache).afterWrite : C01 C03 C05 C06 C09
 //@   counted
-//@   requires cfg(c) && n != nil
+//@   requires cfg(c) && n != nil && n != old
 //@   modifies $MAINT, $EVLOG, $ONDEL, ghost_queued(), ghost_calls_performCleanUp(), ghost_calls_afterWriteTask(), ghost_calls_getTask(), task::*
 //@   ensures [C06:replacement-reported-without-maintenance] !c.withMaintenance && old != nil && c.onDeletion != nil ==> ghost_calls_onDeletion() == pre(ghost_calls_onDeletion()) + 1 && same(ghost_arg_onDeletion_1[V](), ghost_value(old)) && ghost_arg_onDeletion_2() == CauseReplacement
 //@   site afterWriteTask: requires [C05:event-carries-the-written-nodes] ghost_last_getTask_result[K, V]() != nil && ghost_last_getTask_result[K, V]().n == n && ghost_last_getTask_result[K, V]().old == old
 //@   site afterWriteTask: requires [C06:event-carries-truthful-cause] (old == nil ==> ghost_last_getTask_result[K, V]().writeReason == addReason) && (old != nil ==> ghost_last_getTask_result[K, V]().writeReason == updateReason && ghost_last_getTask_result[K, V]().deletionCause == pickCause(live(old, nowNano), CauseReplacement, CauseExpiration))
 //@   ensures [C05:one-write-event-per-write] c.withMaintenance ==> ghost_calls_afterWriteTask() == pre(ghost_calls_afterWriteTask()) + 1 && ghost_last_afterWriteTask_t[K, V]() == ghost_last_getTask_result[K, V]()
+//@   ensures [clock-stable] pre(ghost_clockRead()) ==> ghost_clockRead() && ghost_now() == pre(ghost_now())
+//@   ensures [wiring-kept] pre(wired(c)) ==> wired(c)
 
 //@ func (*cache).runTask : C05 C06 C04 C07
 //@   counted
-//@   requires cfg(c) && wired(c) && (t != nil ==> c.withMaintenance && taskWf(t))
-//@   modifies $MAINT, t.n, t.old, t.writeReason, t.deletionCause
+//@   requires cfg(c) && (t != nil ==> c.withMaintenance && taskWf(t))
+//@   modifies $MAINT0, t.n, t.old, t.writeReason, t.deletionCause
 //@   ensures [wiring-kept] wired(c)
 //@   ensures [C05:no-event-nothing-told] t == nil ==> ghost_calls_notifyDeletion() == pre(ghost_calls_notifyDeletion()) && ghost_evictions() == pre(ghost_evictions())
 //@   ensures [C06:write-event-notifies-exactly-once] t != nil ==> $EVDELTA == pre($EVDELTA) + pickU64(pre(t.writeReason) != addReason, 1, 0)
@@ -699,15 +763,18 @@ func estOf[K comparable](s *sketch[K], k K) uint64 {
 //@   ensures [C06:removed-value-reported-with-its-cause] t != nil && pre(t.writeReason) == deleteReason ==> same(ghost_last_notifyDeletion_key[K](), ghost_key(pre(t.n))) && same(ghost_last_notifyDeletion_value[V](), ghost_value(pre(t.n))) && ghost_last_notifyDeletion_cause() == pre(t.deletionCause)
 //@   ensures [C05:removed-node-untracked] t != nil && pre(t.writeReason) == deleteReason ==> (c.withExpiration ==> !ghost_inWheel(pre(t.n))) && (c.withEviction ==> ghost_state(pre(t.n)) == 2 && !ghost_inDeque(queueOf(c.evictionPolicy, pre(t.n)), pre(t.n)))
 //@   ensures [C05:replaced-node-untracked] t != nil && pre(t.writeReason) == updateReason ==> (c.withEviction ==> ghost_state(pre(t.old)) == 2)
+//@   ensures [clock-stable] pre(ghost_clockRead()) ==> ghost_clockRead() && ghost_now() == pre(ghost_now())
 
 //@ func (*cache).afterDelete : C01 C03 C05 C06 C09
 //@   counted
-//@   requires cfg(c) && (alreadyLocked ==> wired(c))
+//@   requires cfg(c)
 //@   modifies $MAINT, $EVLOG, $ONDEL, ghost_queued(), ghost_calls_performCleanUp(), ghost_calls_afterWriteTask(), ghost_calls_runTask(), ghost_calls_getTask(), task::*
 //@   site afterWriteTask: requires [C05:delete-event-carries-the-removed-node] ghost_last_getTask_result[K, V]() != nil && ghost_last_getTask_result[K, V]().n == deleted && ghost_last_getTask_result[K, V]().writeReason == deleteReason && ghost_last_getTask_result[K, V]().deletionCause == pickCause(live(deleted, nowNano), CauseInvalidation, CauseExpiration)
 //@   ensures [C05:nothing-removed-nothing-told] deleted == nil ==> ghost_calls_afterWriteTask() == pre(ghost_calls_afterWriteTask()) && ghost_calls_runTask() == pre(ghost_calls_runTask()) && ghost_calls_onDeletion() == pre(ghost_calls_onDeletion())
 //@   ensures [C06:invalidation-reported-without-maintenance] deleted != nil && !c.withMaintenance && c.onDeletion != nil ==> ghost_calls_onDeletion() == pre(ghost_calls_onDeletion()) + 1 && same(ghost_arg_onDeletion_1[V](), ghost_value(deleted))
-//@   ensures [C05:one-delete-event-per-removal] deleted != nil && c.withMaintenance ==> ghost_calls_afterWriteTask()+ghost_calls_runTask() == pre(ghost_calls_afterWriteTask()+ghost_calls_runTask()) + 1
+//@   ensures [C05:one-delete-event-per-removal] deleted != nil && c.withMaintenance ==> (alreadyLocked ==> ghost_calls_runTask() == pre(ghost_calls_runTask()) + 1 && ghost_last_runTask_t[K, V]() == ghost_last_getTask_result[K, V]() && ghost_calls_afterWriteTask() == pre(ghost_calls_afterWriteTask())) && (!alreadyLocked ==> ghost_calls_afterWriteTask() == pre(ghost_calls_afterWriteTask()) + 1 && ghost_last_afterWriteTask_t[K, V]() == ghost_last_getTask_result[K, V]())
+//@   ensures [clock-stable] pre(ghost_clockRead()) ==> ghost_clockRead() && ghost_now() == pre(ghost_now())
+//@   ensures [wiring-kept] pre(wired(c)) ==> wired(c)
 
 //@ func (*cache).getNode : C01 C03 C20 C12
 //@   requires cfg(c) && nowNano >= 0
@@ -718,6 +785,8 @@ func estOf[K comparable](s *sketch[K], k K) uint64 {
 //@   ensures [C20:hit-iff-live] ghost_hits() == pre(ghost_hits()) + pickU64(result != nil, 1, 0)
 //@   ensures [C12:read-deadline] result != nil && c.withExpiration ==> ghost_expiresAt(result) == pickI64(ghost_ret_ExpireAfterRead() > 0, satadd(nowNano, int64(ghost_ret_ExpireAfterRead())), pre(ghost_expiresAt(ghost_tbl(c.hashmap, key))))
 //@   ensures [C03:miss-touches-no-deadline] result == nil && pre(ghost_tbl(c.hashmap, key)) != nil ==> ghost_expiresAt(pre(ghost_tbl(c.hashmap, key))) == pre(ghost_expiresAt(ghost_tbl(c.hashmap, key)))
+//@   ensures [clock-stable] pre(ghost_clockRead()) ==> ghost_clockRead() && ghost_now() == pre(ghost_now())
+//@   ensures [wiring-kept] pre(wired(c)) ==> wired(c)
 
 //@ func (*cache).GetIfPresent : C01 C03 C20
 //@   requires cfg(c)
@@ -726,6 +795,7 @@ func estOf[K comparable](s *sketch[K], k K) uint64 {
 //@   ensures [C01:present-is-found] liveAt(pre(ghost_tbl(c.hashmap, key)), pre(ghost_expiresAt(ghost_tbl(c.hashmap, key))), ghost_now()) ==> r1
 //@   ensures [C01:absent-zero] !r1 ==> same(r0, zeroValue[V]())
 //@   ensures [C20:one-lookup] ghost_hits()+ghost_misses() == pre(ghost_hits()+ghost_misses()) + 1 && ghost_hits() == pre(ghost_hits()) + pickU64(r1, 1, 0)
+//@   ensures [wiring-kept] pre(wired(c)) ==> wired(c)
 
 //@ func (*cache).GetEntry : C01 C03 C20
 //@   requires cfg(c)
@@ -734,6 +804,7 @@ func estOf[K comparable](s *sketch[K], k K) uint64 {
 //@   ensures [C01:present-is-found] liveAt(pre(ghost_tbl(c.hashmap, key)), pre(ghost_expiresAt(ghost_tbl(c.hashmap, key))), ghost_now()) ==> r1
 //@   ensures [C12:entry-deadline-is-node-deadline] r1 && c.withExpiration ==> r0.ExpiresAtNano == ghost_expiresAt(pre(ghost_tbl(c.hashmap, key))) && r0.ExpiresAtNano > r0.SnapshotAtNano
 //@   ensures [C20:one-lookup] ghost_hits()+ghost_misses() == pre(ghost_hits()+ghost_misses()) + 1 && ghost_hits() == pre(ghost_hits()) + pickU64(r1, 1, 0)
+//@   ensures [wiring-kept] pre(wired(c)) ==> wired(c)
 
 //@ func (*cache).GetEntryQuietly : C01 C03 C20
 //@   requires cfg(c)
@@ -766,12 +837,14 @@ func estOf[K comparable](s *sketch[K], k K) uint64 {
 //@   ensures [C03:expired-or-missing-reported-absent] !lp(live(ghost_tbl(c.hashmap, key), ghost_now())) ==> r1 && same(r0, value)
 //@   ensures [C01:replaced-value-returned] lp(live(ghost_tbl(c.hashmap, key), ghost_now())) ==> !r1 && same(r0, lp(ghost_value(ghost_tbl(c.hashmap, key))))
 //@   ensures [C01:installs] lpend(ghost_lpNew(c.hashmap)) != nil && same(ghost_value(lpend(ghost_lpNew(c.hashmap))), value)
+//@   ensures [wiring-kept] pre(wired(c)) ==> wired(c)
 
 //@ func (*cache).SetIfAbsent : C01 C03 C06 C09
 //@   requires cfg(c) && c.singleflight != nil
 //@   modifies *
 //@   ensures [C03:expired-or-missing-reported-absent] !lp(live(ghost_tbl(c.hashmap, key), ghost_now())) ==> r1 && same(r0, value) && lpend(ghost_lpNew(c.hashmap)) != nil && same(ghost_value(lpend(ghost_lpNew(c.hashmap))), value)
 //@   ensures [C01:present-kept] lp(live(ghost_tbl(c.hashmap, key), ghost_now())) ==> !r1 && same(r0, lp(ghost_value(ghost_tbl(c.hashmap, key)))) && lpend(ghost_lpNew(c.hashmap)) == lpend(ghost_lpCur(c.hashmap))
+//@   ensures [wiring-kept] pre(wired(c)) ==> wired(c)
 
 //@ func (*cache).Invalidate : C01 C03 C06 C09 C20 C05
 //@   mode seq,itf
@@ -785,6 +858,7 @@ func estOf[K comparable](s *sketch[K], k K) uint64 {
 //@   ensures [C05:policy-told-iff-removed] ghost_calls_afterDelete() == pre(ghost_calls_afterDelete()) + 1 && ghost_last_afterDelete_deleted[K, V]() == lpend(ghost_lpCur(c.hashmap))
 //@   ensures [C09:write-clears-call] c.singleflight.isInitialized.Load() ==> lpend(ghost_calls(c.singleflight.calls, key)) == nil
 //@   ensures [C20:quiet] ghost_hits() == pre(ghost_hits()) && ghost_misses() == pre(ghost_misses())
+//@   ensures [wiring-kept] pre(wired(c)) ==> wired(c)
 
 //@ func (*cache).deleteNodeFromMap : C01 C03 C06 C09 C05 C07
 //@   mode seq,itf
@@ -825,6 +899,7 @@ func estOf[K comparable](s *sketch[K], k K) uint64 {
 //@   ensures [C03:callback-sees-expired-as-absent] ghost_calls_remappingFunc() == pre(ghost_calls_remappingFunc()) + 1 && ghost_arg_remappingFunc_1() == lp(live(ghost_tbl(c.hashmap, key), ghost_now()))
 //@   ensures [C01:result-is-table-content] r1 == (lpend(ghost_lpNew(c.hashmap)) != nil) && (r1 ==> same(r0, ghost_value(lpend(ghost_lpNew(c.hashmap))))) && (!r1 ==> same(r0, zeroValue[V]()))
 //@   ensures [C20:one-lookup] ghost_hits()+ghost_misses() == pre(ghost_hits()+ghost_misses()) + 1 && ghost_hits() == pre(ghost_hits()) + pickU64(lp(live(ghost_tbl(c.hashmap, key), ghost_now())), 1, 0)
+//@   ensures [wiring-kept] pre(wired(c)) ==> wired(c)
 
 //@ func (*cache).ComputeIfAbsent : C01 C03 C20
 //@   panics
@@ -834,6 +909,7 @@ func estOf[K comparable](s *sketch[K], k K) uint64 {
 //@   ensures [C03:expired-or-missing-computes-at-most-once] !liveAt(pre(ghost_tbl(c.hashmap, key)), pre(ghost_expiresAt(ghost_tbl(c.hashmap, key))), ghost_now()) ==> ghost_calls_mappingFunc() == pre(ghost_calls_mappingFunc()) || ghost_calls_mappingFunc() == pre(ghost_calls_mappingFunc())+1
 //@   ensures [C01:result-is-table-content] !liveAt(pre(ghost_tbl(c.hashmap, key)), pre(ghost_expiresAt(ghost_tbl(c.hashmap, key))), ghost_now()) ==> r1 == (lpend(ghost_lpNew(c.hashmap)) != nil)
 //@   ensures [C20:one-lookup] ghost_hits()+ghost_misses() == pre(ghost_hits()+ghost_misses()) + 1
+//@   ensures [wiring-kept] pre(wired(c)) ==> wired(c)
 
 //@ func (*cache).ComputeIfPresent : C01 C03 C20
 //@   panics
@@ -841,38 +917,46 @@ func estOf[K comparable](s *sketch[K], k K) uint64 {
 //@   modifies *
 //@   ensures [C03:expired-or-missing-is-absent] !liveAt(pre(ghost_tbl(c.hashmap, key)), pre(ghost_expiresAt(ghost_tbl(c.hashmap, key))), ghost_now()) ==> !r1 && same(r0, zeroValue[V]()) && ghost_calls_remappingFunc() == pre(ghost_calls_remappingFunc())
 //@   ensures [C20:one-lookup] ghost_hits()+ghost_misses() == pre(ghost_hits()+ghost_misses()) + 1
+//@   ensures [wiring-kept] pre(wired(c)) ==> wired(c)
 
 // iteration: only live entries are handed to the consumer
 //@ func (*cache).nodes : C01 C03
 //@   requires cfg(c)
 //@   modifies *
 //@   result-callback yield: requires [C03:iterates-live-only] cb0 == ghost_ranged[K, V]() && live(cb0, ghost_now()) && alive(cb0) && ghost_clockRead()
+//@   ensures [wiring-kept] pre(wired(c)) ==> wired(c)
+//@   loop nodes$1$1:0: invariant [wiring] wired(c)
 
 //@ func (*cache).All : C01 C03
 //@   requires cfg(c)
 //@   modifies *
 //@   result-callback yield: requires [C03:iterates-live-only] same(cb0, ghost_key(ghost_ranged[K, V]())) && same(cb1, ghost_value(ghost_ranged[K, V]())) && live(ghost_ranged[K, V](), ghost_now()) && alive(ghost_ranged[K, V]())
+//@   ensures [wiring-kept] pre(wired(c)) ==> wired(c)
 
 //@ func (*cache).Keys : C01 C03
 //@   requires cfg(c)
 //@   modifies *
 //@   result-callback yield: requires [C03:iterates-live-only] same(cb0, ghost_key(ghost_ranged[K, V]())) && live(ghost_ranged[K, V](), ghost_now()) && alive(ghost_ranged[K, V]())
+//@   ensures [wiring-kept] pre(wired(c)) ==> wired(c)
 
 //@ func (*cache).Values : C01 C03
 //@   requires cfg(c)
 //@   modifies *
 //@   result-callback yield: requires [C03:iterates-live-only] same(cb0, ghost_value(ghost_ranged[K, V]())) && live(ghost_ranged[K, V](), ghost_now()) && alive(ghost_ranged[K, V]())
+//@   ensures [wiring-kept] pre(wired(c)) ==> wired(c)
 
 //@ func (*cache).entries : C01 C03 C19
 //@   requires cfg(c)
 //@   modifies *
 //@   result-callback yield: requires [C03:iterates-live-only] same(cb0.Key, ghost_key(ghost_ranged[K, V]())) && same(cb0.Value, ghost_value(ghost_ranged[K, V]())) && (!c.withExpiration || cb0.ExpiresAtNano > cb0.SnapshotAtNano) && alive(ghost_ranged[K, V]())
+//@   ensures [wiring-kept] pre(wired(c)) ==> wired(c)
 
 //@ func (*cache).evictionOrder : C01 C03 C19 C05
 //@   requires cfg(c)
 //@   modifies *
 //@   result-callback yield: requires [C03:ordered-iteration-live-only] !c.withExpiration || cb0.ExpiresAtNano > cb0.SnapshotAtNano
 //@   result-callback yield: requires [C19:ordering-reflects-every-recorded-write] !c.withEviction || ghost_calls_maintenance() == pre(ghost_calls_maintenance())+1
+//@   ensures [wiring-kept] pre(wired(c)) ==> wired(c)
 
 // ---------------------------------------------------------------------------------------------
 // Loads: single flight (C08), no overwrite of newer writes (C09), outcome table (C10), statistics (C20)
@@ -922,6 +1006,7 @@ func estOf[K comparable](s *sketch[K], k K) uint64 {
 //@   ensures [C08:loader-invoked-once] ghost_calls_load() == pre(ghost_calls_load()) + 1
 //@   ensures [C08:finish-always] ghost_calls_afterFinish() == pre(ghost_calls_afterFinish()) + 1
 //@   ensures [C10:error-recorded] c.err == err && c.isNotFound == errors.Is(err, ErrNotFound)
+//@   own-modifies c.value, c.err, c.isNotFound, ghost_calls_load()
 
 //@ func (*call).cancel : C08
 //@   modifies ghost_wgDone(c), c.wg
@@ -943,6 +1028,7 @@ func estOf[K comparable](s *sketch[K], k K) uint64 {
 //@   ensures [C08:waiters-released-once] ghost_wgDone(cl) == pre(ghost_wgDone(cl)) + pickInt(cl.isFake, 0, 1)
 //@   ensures [C06:atomic-once] c.onAtomicDeletion != nil ==> lpend(ghost_calls_onAtomicDeletion()) == lp(ghost_calls_onAtomicDeletion()) + pickInt(lpend(ghost_lpCur(c.hashmap)) != nil && lpend(ghost_lpNew(c.hashmap)) != lpend(ghost_lpCur(c.hashmap)), 1, 0)
 //@   ensures [C05:policy-told-iff-table-changed] ghost_calls_afterWrite() == pre(ghost_calls_afterWrite()) + pickInt(lpend(ghost_lpNew(c.hashmap)) != nil && lpend(ghost_lpNew(c.hashmap)) != lpend(ghost_lpCur(c.hashmap)), 1, 0) && ghost_calls_afterDelete() == pre(ghost_calls_afterDelete()) + pickInt(lpend(ghost_lpNew(c.hashmap)) == nil && lpend(ghost_lpCur(c.hashmap)) != nil, 1, 0)
+//@   ensures [wiring-kept] pre(wired(c)) ==> wired(c)
 
 //@ func (*cache).wrapLoad : C20 C08
 //@   inline verified on its own and inlined at its call sites (the closure it runs is executed concretely)
@@ -1088,10 +1174,12 @@ func estOf[K comparable](s *sketch[K], k K) uint64 {
 //@   loop 3: invariant [C10:assigned-results-kept] pre(mapHas(callsInBulk, kstar)) ==> (mapHas(res, kstar) ==> same(callsInBulk[kstar].value, res[kstar])) && (!mapHas(res, kstar) ==> callsInBulk[kstar].isNotFound && callsInBulk[kstar].err != nil)
 //@   loop doBulkCall$1:1: invariant [C10:error-to-every-call] ghost_visited(kstar) && mapHas(callsInBulk, kstar) ==> callsInBulk[kstar].err == err && !callsInBulk[kstar].isNotFound
 //@   loop doBulkCall$1:2: invariant [finish] callsInBulk != nil
+//@   loop doBulkCall$1:2: invariant [clock-stable] pre(ghost_clockRead()) ==> ghost_clockRead() && ghost_now() == pre(ghost_now())
 //@   ensures [clock-stable] pre(ghost_clockRead()) ==> ghost_clockRead() && ghost_now() == pre(ghost_now())
 //@   ensures [C10:bulk-error-reaches-every-call] err != nil && pre(mapHas(callsInBulk, kstar)) ==> callsInBulk[kstar].err == err && !callsInBulk[kstar].isNotFound
 //@   ensures [C10:bulk-supplied-value-recorded] err == nil && pre(mapHas(callsInBulk, kstar)) && mapHas(ghost_ret_bulkLoad_0[K, V](), kstar) ==> same(callsInBulk[kstar].value, ghost_ret_bulkLoad_0[K, V]()[kstar])
 //@   ensures [C10:bulk-unsupplied-key-is-no-hit] err == nil && pre(mapHas(callsInBulk, kstar)) && !mapHas(ghost_ret_bulkLoad_0[K, V](), kstar) ==> callsInBulk[kstar].isNotFound && callsInBulk[kstar].err != nil
+//@   own-modifies map callsInBulk, call::value, call::err, call::isNotFound, ghost_calls_bulkLoad(), ghost_visited(*)
 
 //@ func (*cache).refreshKey : C11 C08
 //@   counted
@@ -1104,6 +1192,8 @@ func estOf[K comparable](s *sketch[K], k K) uint64 {
 //@   ensures [C11:nil-if-unconfigured] !c.withRefresh ==> result == nil
 //@   ensures [C11:one-result-per-manual-call] c.withRefresh && isManual ==> result != nil && ghost_chanSent(result) == 1
 //@   ensures [C11:automatic-refresh-returns-no-channel] c.withRefresh && !isManual ==> result == nil
+//@   ensures [wiring-kept] pre(wired(c)) ==> wired(c)
+//@   site doCall: callback-invariant cfg(c) && c.singleflight.calls != nil && c.singleflight.isInitialized.Load()
 
 //@ func (*cache).Get : C08 C10 C11 C20 C01 C03
 //@   requires cfg(c) && c.singleflight != nil && ghost_calls_load() == 0
@@ -1116,6 +1206,8 @@ func estOf[K comparable](s *sketch[K], k K) uint64 {
 //@   ensures [C10:miss-returns-the-outcome-of-the-call] !liveAt(pre(ghost_tbl(c.hashmap, key)), pre(ghost_expiresAt(ghost_tbl(c.hashmap, key))), ghost_now()) ==> ghost_calls_startCall() == pre(ghost_calls_startCall()) + 1 && same(r0, ghost_last_startCall_c[K, V]().value) && r1 == ghost_last_startCall_c[K, V]().err
 //@   ensures [C08:loads-iff-it-registered-the-call] !liveAt(pre(ghost_tbl(c.hashmap, key)), pre(ghost_expiresAt(ghost_tbl(c.hashmap, key))), ghost_now()) ==> ghost_calls_doCall() == pre(ghost_calls_doCall()) + pickInt(ghost_last_startCall_shouldLoad(), 1, 0)
 //@   ensures [C20:one-lookup] ghost_hits()+ghost_misses() == pre(ghost_hits()+ghost_misses()) + 1
+//@   ensures [wiring-kept] pre(wired(c)) ==> wired(c)
+//@   site doCall: callback-invariant cfg(c) && c.singleflight.calls != nil && c.singleflight.isInitialized.Load()
 
 //@ func (*cache).Refresh : C11 C20
 //@   requires cfg(c) && c.singleflight != nil && ghost_calls_load() == 0
@@ -1123,11 +1215,13 @@ func estOf[K comparable](s *sketch[K], k K) uint64 {
 //@   ensures [C11:nil-if-unconfigured] !c.withRefresh ==> result == nil
 //@   ensures [C11:one-result-per-call] c.withRefresh ==> result != nil && ghost_chanSent(result) == 1
 //@   ensures [C20:quiet] ghost_hits() == pre(ghost_hits()) && ghost_misses() == pre(ghost_misses())
+//@   ensures [wiring-kept] pre(wired(c)) ==> wired(c)
 
 //@ func (*cache).bulkRefreshKeys : C10 C11
 //@   assumed footprint only (its loops over the refresh set are not under contract yet)
 //@   modifies $LOADFX
 //@   ensures [clock-stable] pre(ghost_clockRead()) ==> ghost_clockRead() && ghost_now() == pre(ghost_now())
+//@   ensures [wiring-kept] pre(wired(c)) ==> wired(c)
 
 //@ func (*cache).BulkGet : C10 C08 C20
 //@   var kstar K
@@ -1136,6 +1230,9 @@ func estOf[K comparable](s *sketch[K], k K) uint64 {
 //@   site getNode: requires [C20:each-distinct-key-looked-up-once] !mapHas(result, key) && !mapHas(misses, key)
 //@   site doBulkCall: requires [C10:loader-only-for-missing-keys] len(toLoadCalls) > 0 && (mapHas(toLoadCalls, kstar) ==> mapHas(misses, kstar) && !mapHas(result, kstar))
 //@   loop 1: invariant [result-map] result != nil
+//@   loop 1: invariant [wiring] wired(c)
+//@   loop 2: invariant [wiring] wired(c)
+//@   loop 3: invariant [wiring] wired(c)
 //@   loop 1: invariant [C10:hits-and-misses-disjoint] !(mapHas(result, kstar) && mapHas(misses, kstar))
 //@   loop 1: invariant [C10:no-load-yet] ghost_calls_doBulkCall() == pre(ghost_calls_doBulkCall())
 //@   loop 2: invariant [C10:calls-only-for-misses] result != nil && !(mapHas(result, kstar) && mapHas(misses, kstar)) && (mapHas(toLoadCalls, kstar) ==> mapHas(misses, kstar)) && ghost_calls_doBulkCall() == pre(ghost_calls_doBulkCall())
@@ -1144,3 +1241,6 @@ func estOf[K comparable](s *sketch[K], k K) uint64 {
 //@   loop 3: invariant [C10:failed-or-unsupplied-keys-stay-absent] result != nil && (mapHas(misses, kstar) ==> misses[kstar] != nil) && (mapHas(result, kstar) && mapHas(misses, kstar) ==> misses[kstar].err == nil)
 //@   ensures [C10:loader-at-most-once-per-call] ghost_calls_doBulkCall() == pre(ghost_calls_doBulkCall()) || ghost_calls_doBulkCall() == pre(ghost_calls_doBulkCall())+1
 //@   ensures [C10:result-map-returned] r0 != nil
+//@   site doBulkCall: callback-invariant cfg(c) && c.singleflight.calls != nil && c.singleflight.isInitialized.Load()
+
+//@   ensures [wiring-kept] pre(wired(c)) ==> wired(c)
